@@ -2,6 +2,8 @@ package main
 
 import (
 	"fmt"
+	"go/token"
+	"go/types"
 	"sort"
 	"strings"
 
@@ -241,4 +243,164 @@ func c04RPCHeadersAreHeaders(c *Ctx, pkg string) {
 	if n < 1 {
 		c.Unresolved("C04.R9", "the store to RPCRouteRuleImpl.configHeaders")
 	}
+}
+
+// c04VariableLogic (R10): the variable matchers of a route are combined as an or of and-groups.
+// v2.VariableMatcher.Model is the operator that joins an item to the next one ("support && and || operator"): a group
+// of items joined by "and" holds when each of them holds, the route is selected when some group holds. Every item is
+// seen by Match through five observations only (value configured / equal to the request's, regex configured / matching,
+// model == "or"), so the loop is decided exactly, for lists of every length, by the finite-domain abstract
+// interpretation of absint.go against the reference monitor below.
+func c04VariableLogic(c *Ctx, pkg string) {
+	fn := c.M(pkg, "VariableRouteRuleImpl", "Match")
+	if fn == nil {
+		c.Unresolved("C04.R10", "VariableRouteRuleImpl.Match")
+		return
+	}
+	// the loop over vrri.Variables
+	var header *ssa.BasicBlock
+	var body map[*ssa.BasicBlock]bool
+	loops := naturalLoops(fn)
+	for h, b := range loops {
+		if header == nil || h.Index < header.Index {
+			header, body = h, b
+		}
+	}
+	if header == nil || len(loops) != 1 {
+		c.Unresolved("C04.R10", fmt.Sprintf("the single loop over the route's variable matchers in VariableRouteRuleImpl.Match (found %d loops)", len(loops)))
+		return
+	}
+	isItem := func(t types.Type) bool {
+		p, ok := t.(*types.Pointer)
+		if !ok {
+			return false
+		}
+		n, ok := p.Elem().(*types.Named)
+		return ok && n.Obj().Name() == "VariableMatchItem"
+	}
+	spec := &aiSpec{
+		fn: fn, header: header, body: body,
+		inputs: []string{"hasValue", "eq", "hasRegex", "match", "or"},
+		typeTag: func(t types.Type) (aiVal, bool) {
+			if isItem(t) {
+				return aiVal{k: aiNonNil, tag: "item"}, true
+			}
+			return aiVal{}, false
+		},
+		classify: func(in ssa.Instruction, op func(ssa.Value) aiVal, asg map[string]bool) (aiVal, bool) {
+			ptr := func(has bool, tag string) aiVal {
+				if has {
+					return aiVal{k: aiNonNil, tag: tag}
+				}
+				return aiVal{k: aiNil}
+			}
+			switch x := in.(type) {
+			case *ssa.UnOp:
+				if x.Op != token.MUL || asg == nil {
+					return aiVal{}, false
+				}
+				switch op(x.X).tag {
+				case "&item.value":
+					return ptr(asg["hasValue"], "value"), true
+				case "&item.regexPattern":
+					return ptr(asg["hasRegex"], "regex"), true
+				case "&item.model":
+					if asg["or"] {
+						return aiVal{k: aiStr, s: "or"}, true
+					}
+					return aiVal{k: aiStr, s: "and"}, true
+				case "value":
+					return aiVal{tag: "*value"}, true
+				}
+			case *ssa.Call:
+				name := calleeName(x.Common())
+				if strings.HasSuffix(name, "variable.GetString") {
+					return aiVal{tag: "GetString"}, true
+				}
+				if strings.HasSuffix(name, "Regexp).MatchString") && asg != nil && len(x.Common().Args) == 2 && op(x.Common().Args[0]).tag == "regex" && op(x.Common().Args[1]).tag == "actual" {
+					return aiVal{k: aiBool, b: asg["match"]}, true
+				}
+			case *ssa.Extract:
+				if op(x.Tuple).tag == "GetString" && x.Index == 0 {
+					return aiVal{tag: "actual"}, true
+				}
+			case *ssa.BinOp:
+				if (x.Op == token.EQL || x.Op == token.NEQ) && asg != nil {
+					a, b := op(x.X).tag, op(x.Y).tag
+					if (a == "*value" && b == "actual") || (a == "actual" && b == "*value") {
+						return aiVal{k: aiBool, b: asg["eq"] == (x.Op == token.EQL)}, true
+					}
+				}
+			}
+			return aiVal{}, false
+		},
+		// monitor state: g = the current group holds so far, d = an earlier group held, e = the current group is empty
+		// because the list ended with an "or" item
+		monInit: "g=1 d=0 e=0",
+		monStep: func(st string, asg map[string]bool) string {
+			g, d := strings.Contains(st, "g=1"), strings.Contains(st, "d=1")
+			holds := false
+			if asg["hasRegex"] {
+				holds = asg["match"]
+			} else if asg["hasValue"] {
+				holds = asg["eq"]
+			}
+			g = g && holds
+			e := false
+			if asg["or"] {
+				if g {
+					d = true
+				}
+				g, e = true, true
+			}
+			bit := func(b bool) string {
+				if b {
+					return "1"
+				}
+				return "0"
+			}
+			return "g=" + bit(g) + " d=" + bit(d) + " e=" + bit(e)
+		},
+		monWant: func(st string) bool {
+			return strings.Contains(st, "d=1") || (strings.Contains(st, "g=1") && strings.Contains(st, "e=0"))
+		},
+		monFinal: func(st string) bool { return strings.Contains(st, "d=1") },
+		observe: func(ret *ssa.Return, op func(ssa.Value) aiVal) (bool, bool) {
+			if len(ret.Results) != 1 {
+				return false, false
+			}
+			switch op(ret.Results[0]).k {
+			case aiNil:
+				return false, true
+			case aiNonNil:
+				return true, true
+			}
+			return false, false
+		},
+		showAsg: func(a map[string]bool) string {
+			holds := "no value/regex"
+			if a["hasRegex"] {
+				holds = fmt.Sprintf("regex matches=%v", a["match"])
+			} else if a["hasValue"] {
+				holds = fmt.Sprintf("value equal=%v", a["eq"])
+			}
+			m := "and"
+			if a["or"] {
+				m = "or"
+			}
+			return "[" + holds + ", model=" + m + "]"
+		},
+	}
+	res := aiRun(c, spec)
+	key := funcKey(fn) + ":or-of-and-groups"
+	if len(res.undecided) > 0 {
+		c.Unresolved("C04.R10", "the and/or logic of VariableRouteRuleImpl.Match within the abstract domain: "+strings.Join(res.undecided, "; "))
+		return
+	}
+	if res.states < 2 || res.returns < 2 {
+		c.Unresolved("C04.R10", fmt.Sprintf("reachable states of the variable matcher loop (states=%d returns=%d)", res.states, res.returns))
+		return
+	}
+	c.Check("C04.R10", key, fn.Pos(), len(res.mismatches) == 0, fmt.Sprintf("fixed point over %d loop states, %d item observations, %d returns compared with the reference", res.states, res.iterations, res.returns),
+		"a variable route is not selected exactly when one of its and-groups of variable matchers holds ("+strings.Join(res.mismatches, "; ")+"): the route shadows later routes for requests it must not match, or is skipped for requests it must match")
 }
